@@ -135,7 +135,7 @@ Lemma bnd_read k bs b : bnd (read c k bs) bs (N.of_nat k) b.
 Proof.
   unfold read. rewrite Hread.
   apply (bnd_weaken _ _ (N.of_nat k + 0) b); [lia|lia|]. apply bnd_tick, bnd_lift.
-  intros v r H. now apply take_len in H.
+  intros v r H. rewrite read_exact_take in H. now apply take_len in H.
 Qed.
 
 (* the prefix byte gives at most 67 following bytes *)
@@ -322,7 +322,7 @@ Proof.
   - (* TU128 *) intros _ _ bs. cbn [decode ca cb].
     apply (bnd_weaken _ _ (1 + (16 + (0 + 0))) 0); [lia|lia|].
     apply bnd_tick, bnd_tick. apply bnd_bind.
-    + apply bnd_lift. intros v r H. now apply take_len in H.
+    + apply bnd_lift. intros v r H. rewrite read_exact_take in H. now apply take_len in H.
     + intros x r L. cbv beta iota. apply bnd_ret, N.le_refl.
   - (* TBool *) intros _ _ bs. cbn [decode ca cb].
     apply (bnd_weaken _ _ (1 + (1 + 0)) 0); [lia|lia|]. apply bnd_tick. apply bnd_bind; [apply bnd_read_byte|].
